@@ -164,7 +164,10 @@ fn main() {
     // one set of interpreters, created once; the reference results are computed on it
     // sequentially before any other thread exists (history independence is the business of the
     // simulator's history layer; this layer is about interleavings)
+    // NOTE: the shared set is first USED by the caller threads (so that races in lazily initialised
+    // state on the first calls are reachable); the reference results come from a second, private set
     let shared = Arc::new(Set::new(which));
+    let private = Set::new(which);
     // which 0..2: only the calls of that splitter language (keeps the shared splitter busy);
     // which 3: the four languages without a splitter, all entry points
     let lang_of = |c: Call| match c {
@@ -175,7 +178,8 @@ fn main() {
         .copied()
         .filter(|&c| shared.has(c) && (which >= 3 || lang_of(c) == which) && (!dense || matches!(c, Call::T2d(..))))
         .collect();
-    let expected: Vec<String> = calls.iter().map(|&c| shared.run(c)).collect();
+    let expected: Vec<String> = calls.iter().map(|&c| private.run(c)).collect();
+    drop(private);
     let expected = Arc::new(expected);
     let calls = Arc::new(calls);
     let mut handles = vec![];
